@@ -279,6 +279,65 @@ pub fn minimise_one(engine: &str, scenario: &Value, key: &str, ctx: &mut Ctx) ->
             let best = crate::minimise::shrink_queues(&sc, &mut fails);
             serde_json::to_value(best).unwrap()
         }
+        "entropy-c12" | "entropy-c13" => {
+            let sc: entropy::EntropySc = serde_json::from_value(scenario.clone()).expect("entropy scenario");
+            let names = ctx.names.clone();
+            let fails = |c: &entropy::EntropySc| entropy::execute(c, &names).violations.iter().any(|v| v.key() == key);
+            let mut best = sc.clone();
+            // without the entropy faults
+            let mut c = best.clone();
+            c.p_extreme = 0;
+            c.p_repeat = 0;
+            if fails(&c) {
+                best = c;
+            }
+            // a single stream, if one stream suffices (reachability needs them all)
+            if best.only_stream.is_none() {
+                for k in 0..best.streams {
+                    let mut c = best.clone();
+                    c.only_stream = Some(k);
+                    if fails(&c) {
+                        best = c;
+                        break;
+                    }
+                }
+            }
+            serde_json::to_value(best).unwrap()
+        }
+        "isolation" => {
+            let sc: isolation::IsoSc = serde_json::from_value(scenario.clone()).expect("isolation scenario");
+            let names = ctx.names.clone();
+            let iset = &mut ctx.iset;
+            let mut fails = |c: &isolation::IsoSc| isolation::execute(c, iset, &names).violations.iter().any(|v| v.key() == key);
+            let mut best = sc.clone();
+            let mut budget = 1500usize;
+            // fewer co-runners, fewer copies, no warm-up, no intrusions
+            let noise = best.noise.clone();
+            let b2 = best.clone();
+            best.noise = crate::minimise::shrink_vec(&noise, &mut |v| { let mut c = b2.clone(); c.noise = v; fails(&c) }, &mut budget);
+            for copies in 1..best.copies {
+                let mut c = best.clone();
+                c.copies = copies;
+                if fails(&c) {
+                    best = c;
+                    break;
+                }
+            }
+            for f in [|c: &mut isolation::IsoSc| c.warmup = 0, |c: &mut isolation::IsoSc| c.run_with_intrusions = false, |c: &mut isolation::IsoSc| c.share_iset = false] {
+                let mut c = best.clone();
+                f(&mut c);
+                if c != best && fails(&c) {
+                    best = c;
+                }
+            }
+            // the subject's program and state
+            let p = best.subject.prog.clone();
+            let b2 = best.clone();
+            let r = crate::minimise::shrink_program(&p, &mut |cand| { let mut c = b2.clone(); c.subject.prog = cand.to_vec(); fails(&c) }, &mut budget);
+            best.program_text = crate::spec::render_program(&r);
+            best.subject.prog = r;
+            serde_json::to_value(best).unwrap()
+        }
         "runloop" => {
             let sc: runloop::RunloopSc = serde_json::from_value(scenario.clone()).expect("runloop scenario");
             let names = ctx.names.clone();
